@@ -13,7 +13,8 @@
 (* (Register / Lookup / NewGlommer); after each step                                     *)
 (*   LAW        the handler observed through glom() (obs = the handler tags consistent    *)
 (*              with the public observation) must be in LAllowed -> "reject" line;        *)
-(*   MECHANISM  handler handed out by the transcribed mechanism, projected map / tree /    *)
+(*   MECHANISM  (only where the recorder could read the private representation: flags     *)
+(*              mech / memo) handler handed out by the mechanism, projected map / tree /   *)
 (*              memo must equal the recorded ones -> "drift" line (no violation).         *)
 EXTENDS GlomRegistry, Json, IOUtils
 
@@ -36,7 +37,7 @@ StartRegs(k) ==
 V(kind, clause, label) == [kind |-> kind, clause |-> clause, label |-> label]
 Init ==
   /\ i = 2 /\ j = 0 /\ hist = <<>> /\ regs = StartRegs(2)
-  /\ verdict = IF PristineFor("default", Hdr.known_order).tree = Hdr.init THEN <<>>
+  /\ verdict = IF ~Hdr.mech \/ PristineFor("default", Hdr.known_order).tree = Hdr.init THEN <<>>
                ELSE << V("drift", "init-tree", "") >>
 
 \* judge a lookup event against the state before it (R) and what the mechanism handed out (h)
@@ -45,11 +46,12 @@ JudgeLook(R, e, h) ==
       obs     == Range(e.obs)
       law     == IF obs \cap allowed # {} THEN <<>> ELSE << V("law", "nearest", "") >>
       mech    == (IF h \in obs THEN <<>> ELSE << V("drift", "mech-handler", "") >>)
-                 \o (IF e.cached = h THEN <<>> ELSE << V("drift", "mech-memo", "") >>)
+                 \o (IF ~e.memo \/ e.cached = h THEN <<>> ELSE << V("drift", "mech-memo", "") >>)
   IN law \o mech
 JudgeReg(R1, e) ==
-  (IF R1.tree = e.tree THEN <<>> ELSE << V("drift", "mech-tree", "") >>)
-  \o (IF R1.map = e.map THEN <<>> ELSE << V("drift", "mech-map", "") >>)
+  IF ~e.mech THEN <<>>       \* the private representation could not be read: nothing to compare
+  ELSE (IF R1.tree = e.tree THEN <<>> ELSE << V("drift", "mech-tree", "") >>)
+       \o (IF R1.map = e.map THEN <<>> ELSE << V("drift", "mech-map", "") >>)
 
 Step ==
   /\ i <= Len(Rows) /\ j < Len(Rows[i].events)
@@ -59,7 +61,7 @@ Step ==
      \/ /\ e.a = "look" /\ Lookup(e.r, e.t, e.op)
         /\ verdict' = JudgeLook(regs[e.r], e, hist'[Len(hist')].h)
      \/ /\ e.a = "new" /\ NewGlommer(e.r, Hdr.known_order)
-        /\ verdict' = IF regs'[e.r].tree = e.tree THEN <<>> ELSE << V("drift", "new-tree", "") >>
+        /\ verdict' = IF ~e.mech \/ regs'[e.r].tree = e.tree THEN <<>> ELSE << V("drift", "new-tree", "") >>
   /\ j' = j + 1 /\ i' = i
 NextRow ==
   /\ i <= Len(Rows) /\ j = Len(Rows[i].events)
